@@ -5,8 +5,9 @@
    between a marker and its file: a slow write; and between a file and its commit: a data file may be far
    older than the grace period when its transaction commits), the steps of any number of transactions on
    any number of marker-protected files (marker write, file write, pointer flip, marker removal; rollback;
-   abandoning the files of a lost commit attempt) and the steps of collection runs (marker load with the
-   run's abandonment timeout, deletion of markers the REGENERATED kernel of _load_inflight_protection
+   abandoning the files of a lost commit attempt; staging a PRE-BUILT file of any age and adopting it:
+   marker, then a look for an announced collection run) and the steps of collection runs (announcement,
+   marker load with the run's abandonment timeout, deletion of markers the REGENERATED kernel of _load_inflight_protection
    classifies as abandoned, metadata read, listings, deletions guarded by the REGENERATED guard of
    _gc_prefix; several runs in sequence, each with its own grace period and timeout).  A listing is enabled
    only while the run has lasted less than its grace period -- the property's proviso. *)
@@ -20,7 +21,8 @@ Theorem C06_gc_race_safe : forall orph evs,
   forall f, g_swept w f = false ->                               (* f's marker was never treated as abandoned *)
     (g_ref w f = true -> g_present w f = true)                   (* referenced by the committed table: exists *)
     /\ (g_tpc w f = TWritten -> g_present w f = true)            (* of a transaction still in flight: exists *)
-    /\ (In f (g_deleted w) -> g_tpc w f = TOrphaned).            (* deleted by the collector: only after its owner abandoned it *)
+    /\ (In f (g_deleted w) ->                                    (* deleted by the collector: neither of the two, for good *)
+          g_present w f = false /\ g_ref w f = false /\ g_tpc w f <> TWritten).
 Proof. exact gc_race_safe. Qed.
 Print Assumptions C06_gc_race_safe.
 
@@ -37,9 +39,21 @@ Print Assumptions C06_swept_only_abandoned.
 (* ... and until then the marker of a file in flight stays in place through every collection run. *)
 Theorem C06_unswept_marker_kept : forall orph evs,
   let w := grun (ginit orph) evs in
-  forall f, g_swept w f = false -> (g_tpc w f = TMarked \/ g_tpc w f = TWritten \/ g_tpc w f = TFlipped) -> g_marker w f = true.
+  forall f, g_swept w f = false ->
+    (g_tpc w f = TMarked \/ g_tpc w f = TWritten \/ g_tpc w f = TFlipped \/ g_tpc w f = TAdoptM) -> g_marker w f = true.
 Proof. exact unswept_marker_kept. Qed.
 Print Assumptions C06_unswept_marker_kept.
+
+(* Adoption of a pre-built file as Transaction.append_files did it BEFORE the repair (no marker, no look at
+   running collections; `gstep_unrepaired`) refutes the safety statement: a staged file older than the grace
+   period, adopted and committed between a run's metadata read and its listing, is deleted although the
+   committed table references it (the run lasted 4 ms against a grace period of 1 h).  The repaired adoption
+   (`TAdoptMark`; `TAdopt` only while no run is announced) is part of the machine C06_gc_race_safe is about. *)
+Theorem C06_unmarked_adoption_refuted :
+  exists evs w, grun_strict_unrepaired (ginit []) evs = Some w
+    /\ g_swept w 0%nat = false /\ g_ref w 0%nat = true /\ g_present w 0%nat = false.
+Proof. exact unmarked_adoption_refuted. Qed.
+Print Assumptions C06_unmarked_adoption_refuted.
 
 (* The regenerated decision kernels, as the invariant uses them (for all inputs). *)
 Theorem C06_marker_kernel : forall now timeout mt,
@@ -62,13 +76,13 @@ Print Assumptions C06_delete_kernel.
    is unreferenced in its snapshot and old, but protected by the marker snapshot -> GDel 0 is rejected; an
    old orphan IS deleted. *)
 Example C06_nonvacuous :
-  let evs := [TMarkW 0; Tick 5000; GMarks 86400000; GMeta; GList 1000; GEnd; TDataW 0; Tick 5000;
-              GMarks 86400000; GMeta; TFlip 0; TMarkD 0; Tick 10; GList 1000; GDelOrphan 7; GEnd]%nat in
+  let evs := [TMarkW 0; Tick 5000; GAnnounce; GMarks 86400000; GMeta; GList 1000; GEnd; TDataW 0; Tick 5000;
+              GAnnounce; GMarks 86400000; GMeta; TFlip 0; TMarkD 0; Tick 10; GList 1000; GDelOrphan 7; GEnd]%nat in
   let w := grun (ginit [(7%nat, 0)]) evs in
   grun_strict (ginit [(7%nat, 0)]) evs 0 = inl w
   /\ g_ref w 0%nat = true /\ g_present w 0%nat = true /\ g_orphans w = [] /\ g_swept w 0%nat = false
-  /\ gstep (grun (ginit [(7%nat, 0)]) (firstn 3 evs)) (GSweep 0%nat) = None
-  /\ gstep (grun (ginit [(7%nat, 0)]) (firstn 14 evs)) (GDel 0%nat) = None
+  /\ gstep (grun (ginit [(7%nat, 0)]) (firstn 4 evs)) (GSweep 0%nat) = None
+  /\ gstep (grun (ginit [(7%nat, 0)]) (firstn 16 evs)) (GDel 0%nat) = None
   /\ g_mtime w 0%nat < g_cutoff w.
 Proof. vm_compute. repeat split; try reflexivity. Qed.
 
@@ -78,9 +92,22 @@ Proof. vm_compute. repeat split; try reflexivity. Qed.
    period a second run, concurrent with the commit, deletes it; the commit publishes a snapshot that
    references a deleted file. *)
 Example C06_swept_marker_loses_file :
-  let evs := [TMarkW 0; Tick 5000; GMarks 1000; GSweep 0; GMeta; GList 1000; GEnd; TDataW 0; Tick 5000;
-              GMarks 1000; GMeta; GList 1000; GDel 0; TFlip 0; GEnd]%nat in
+  let evs := [TMarkW 0; Tick 5000; GAnnounce; GMarks 1000; GSweep 0; GMeta; GList 1000; GEnd; TDataW 0; Tick 5000;
+              GAnnounce; GMarks 1000; GMeta; GList 1000; GDel 0; TFlip 0; GEnd]%nat in
   let w := grun (ginit []) evs in
   grun_strict (ginit []) evs 0 = inl w
   /\ g_swept w 0%nat = true /\ g_ref w 0%nat = true /\ g_present w 0%nat = false /\ g_deleted w = [0%nat].
+Proof. vm_compute. repeat split; reflexivity. Qed.
+
+(* Non-vacuity of the adoption steps: a pre-built file ten hours old is staged and adopted (marker, no run
+   announced, file in place); a collection run (grace 1 h) starts afterwards and sees the marker; the
+   transaction commits inside the run; the run lists: GDel 0 is rejected; the file survives.  A second
+   pre-built file is staged while a run is announced: its adoption is refused (TAdopt is not enabled). *)
+Example C06_adoption_nonvacuous :
+  let evs := [TStage 0 (-36000000); Tick 1; TAdoptMark 0; TAdopt 0; Tick 1; GAnnounce; GMarks 86400000; GMeta;
+              TFlip 0; TMarkD 0; Tick 1; TStage 1 (-36000000); TAdoptMark 1; GList 3600000]%nat in
+  let w := grun (ginit []) evs in
+  grun_strict (ginit []) evs 0 = inl w
+  /\ g_ref w 0%nat = true /\ g_present w 0%nat = true
+  /\ gstep w (GDel 0%nat) = None /\ gstep w (TAdopt 1%nat) = None /\ g_mtime w 0%nat < g_cutoff w.
 Proof. vm_compute. repeat split; reflexivity. Qed.
